@@ -205,11 +205,17 @@ func WithTxReadClosers(ctx context.Context, db Database, opts *sql.TxOptions, fn
 	}
 
 	for i := range readers {
+		// Each reader counts once, however often it is closed: a repeated Close of
+		// one reader must not release the transaction under its siblings.
+		var closeOnce sync.Once
 		readers[i] = ioutils.NewReadCloserWithCloseHook(readers[i], func() error {
-			if atomic.AddInt64(&remaining, -1) == 0 {
-				return tx.Rollback(ctx)
-			}
-			return nil
+			var err error
+			closeOnce.Do(func() {
+				if atomic.AddInt64(&remaining, -1) == 0 {
+					err = tx.Rollback(ctx)
+				}
+			})
+			return err
 		})
 	}
 	return readers, nil
